@@ -261,9 +261,15 @@ func genC17(cs *CaseSet, rng *Rng, tier string, dir string) {
 				if rng.Bool() {
 					must(os.WriteFile(banPath+".tmp", []byte("10.9.9.9: nu"), 0644))
 				}
-				bf, err := mobius.NewBanFile(banPath)
-				must(err)
-				env.Srv.BanList = bf
+				// a restart builds the store anew; a reload (SIGHUP, the API's reload) makes the running store read its
+				// file again - both must leave exactly the bans that were recorded
+				if bfOld, ok := env.Srv.BanList.(*mobius.BanFile); ok && rng.Intn(3) == 0 {
+					must(bfOld.Load())
+				} else {
+					bf, err := mobius.NewBanFile(banPath)
+					must(err)
+					env.Srv.BanList = bf
+				}
 				ops = append(ops, mkOp(4, "restart"))
 				obs = append(obs, [][]byte{})
 				if sawTemp || sawPerm {
